@@ -162,6 +162,32 @@ func httpRule(method, pattern, body, resp string) *annotations.HttpRule {
 	return r
 }
 
+func pvLabel(f string) string {
+	out := []byte(f)
+	for i := range out {
+		if out[i] == '.' {
+			out[i] = '-'
+		}
+	}
+	return string(out)
+}
+
+// pathVarFields lists the field paths bound as a single path variable by the PathVars method.
+func pathVarFields() []string {
+	var out []string
+	for _, f := range allFields {
+		if f.mapKey != 0 {
+			continue
+		}
+		switch f.tname {
+		case ".c17.Nested", ".google.protobuf.Any", ".google.protobuf.Empty", ".google.protobuf.ListValue":
+			continue // no textual parameter form
+		}
+		out = append(out, f.name)
+	}
+	return append(out, "f_nested.name", "f_nested.n", "f_nested.color", "f_nested.tags", "f_nested.child.n", "f_nested.child.child.name", "o_nested.color")
+}
+
 type methodSpec struct {
 	name   string
 	cs, ss bool
@@ -187,7 +213,20 @@ func methodSpecs() []methodSpec {
 	for _, f := range []string{"f_nested", "r_nested", "m_ss", "f_double", "f_enum", "r_enum", "w_ts", "f_nested.child", "f_bytes", "m_ue"} {
 		respRules = append(respRules, [4]string{"GET", "/v1/resp/" + f + "/{f_string}", "", f})
 	}
+	// one GET binding per field that can be a path variable (scalars, enums, the well-known types the parameter
+	// parser supports, repeated ones, nested field paths), plus multi-segment and prefixed shapes
+	var pvRules [][4]string
+	for _, f := range pathVarFields() {
+		pvRules = append(pvRules, [4]string{"GET", "/v1/pv/" + pvLabel(f) + "/{" + f + "}", "", ""})
+	}
+	pvRules = append(pvRules,
+		[4]string{"GET", "/v1/pvm/f_int32/{f_int32=x/*}", "", ""},
+		[4]string{"GET", "/v1/pvm/w_string/{w_string=**}", "", ""},
+		[4]string{"GET", "/v1/pvm/nested/{f_nested.name=n/**}:get", "", ""},
+		[4]string{"GET", "/v1/pvm/two/{f_nested.n}/{o_nested.name}", "", ""},
+	)
 	return []methodSpec{
+		{name: "PathVars", rules: pvRules},
 		{name: "Unary", rules: bodyRules},
 		{name: "Get", rules: [][4]string{
 			{"GET", "/v1/get/{f_string}", "", ""},
@@ -257,6 +296,15 @@ func buildFile() *descriptorpb.FileDescriptorProto {
 		{Name: s("color"), Number: proto.Int32(3), Type: tEnum.Enum(), TypeName: s(".c17.Color"), Label: lbl(false), JsonName: s("color")},
 		{Name: s("child"), Number: proto.Int32(4), Type: tMessage.Enum(), TypeName: s(".c17.Nested"), Label: lbl(false), JsonName: s("child")},
 		{Name: s("tags"), Number: proto.Int32(5), Type: tString.Enum(), Label: lbl(true), JsonName: s("tags")},
+		{Name: s("attrs"), Number: proto.Int32(6), Type: tMessage.Enum(), TypeName: s(".c17.Nested.AttrsEntry"), Label: lbl(true), JsonName: s("attrs")},
+		{Name: s("counts"), Number: proto.Int32(7), Type: tMessage.Enum(), TypeName: s(".c17.Nested.CountsEntry"), Label: lbl(true), JsonName: s("counts")},
+	}, NestedType: []*descriptorpb.DescriptorProto{
+		{Name: s("AttrsEntry"), Options: &descriptorpb.MessageOptions{MapEntry: proto.Bool(true)}, Field: []*descriptorpb.FieldDescriptorProto{
+			{Name: s("key"), Number: proto.Int32(1), Type: tString.Enum(), Label: lbl(false), JsonName: s("key")},
+			{Name: s("value"), Number: proto.Int32(2), Type: tString.Enum(), Label: lbl(false), JsonName: s("value")}}},
+		{Name: s("CountsEntry"), Options: &descriptorpb.MessageOptions{MapEntry: proto.Bool(true)}, Field: []*descriptorpb.FieldDescriptorProto{
+			{Name: s("key"), Number: proto.Int32(1), Type: tInt32.Enum(), Label: lbl(false), JsonName: s("key")},
+			{Name: s("value"), Number: proto.Int32(2), Type: tInt32.Enum(), Label: lbl(false), JsonName: s("value")}}},
 	}}
 	all := &descriptorpb.DescriptorProto{Name: s("All")}
 	all.OneofDecl = append(all.OneofDecl, &descriptorpb.OneofDescriptorProto{Name: s("choice")})
